@@ -94,7 +94,8 @@ func findChains(p *Program) []*chain {
 					return
 				}
 				sc := x.Call.StaticCallee()
-				if sc != nil && sc.Signature.Recv() != nil && (idOf(sc).pkg == cliPath || idOf(sc).pkg == srvPath) && len(x.Call.Args) == 3 {
+				if sc != nil && sc.Signature.Recv() != nil && (idOf(sc).pkg == cliPath || idOf(sc).pkg == srvPath) && len(x.Call.Args) >= 3 && len(fn.Params) >= 2 &&
+					(x.Call.Args[1] == ssa.Value(fn.Params[0]) || x.Call.Args[2] == ssa.Value(fn.Params[1]) || len(x.Call.Args) == 3) {
 					c.core = x
 				}
 			}
@@ -203,6 +204,16 @@ func runC19(r *Run, verifDir string) {
 			r.Unk("C19.W2", key, c.k.Pos(), "innermost handler call not recognised")
 		case !ownParams(c.stage, 1):
 			r.Bad("C19.W2", key, c.stage.Pos(), "the stage is not given the continuation's own context and message (a captured outer variable is passed instead): a message or context substituted by the previous middleware is ignored")
+		case func() bool {
+			// extra arguments of the core must not be cells shared by all invocations of the continuation
+			for _, a := range c.core.Call.Args[3:] {
+				if _, isFV := a.(*ssa.FreeVar); isFV {
+					return true
+				}
+			}
+			return false
+		}():
+			r.Bad("C19.W2", key, c.core.Pos(), "the core handler is handed a variable captured from the enclosing function (shared by every invocation of the continuation): re-entrant executions write their results into the same cell, so a middleware that calls next twice gets the later execution's result for both calls")
 		case !ownParams(c.core, 1):
 			r.Bad("C19.W2", key, c.core.Pos(), "the core handler is not given the continuation's own context and message: what the last middleware passed on is ignored")
 		case !returnsUnchanged(c.stage) || !returnsUnchanged(c.core):
